@@ -62,7 +62,7 @@ def main():
     if ok:
         dst = os.path.join('/verif/seeded', name)
         os.makedirs(dst, exist_ok=True)
-        for f in ('patch.diff', 'demo.c', 'build_demo.sh', 'NOTES.md'):
+        for f in ['patch.diff', 'demo.c', 'build_demo.sh', 'NOTES.md'] + [x for x in os.listdir(pend) if x.endswith('.h')]:
             if os.path.exists(os.path.join(pend, f)):
                 shutil.copy(os.path.join(pend, f), dst)
         meta = dict(property=pid, name=name, origin='independent sub-agent given only the property text and a scratch worktree',
